@@ -80,6 +80,15 @@ def events2(nodes, reflexive=True):
                 yield (a, b, c)
 
 
+def events3w(nodes):
+    """Three-world triples: three non-reflexive all-'-' items, each with at least one subscript, whose three intervention
+    sets are pairwise different (copies of one variable in a first and a last world meet only here)."""
+    its = [it for it in event_items(nodes, 2, reflexive=False) if it[1] and not it[2] and not any(s for _, s in it[1])]
+    for combo in itt.combinations(its, 3):
+        if len({frozenset(it[1]) for it in combo}) == 3:
+            yield combo
+
+
 def val(a, name, star):
     return a[name] if not star else 1 - a[name]
 
